@@ -114,6 +114,13 @@ func c13Stack(r *eng.Run) {
 	// The application's own list of extensions, spread into SetExtensions
 	// every time (the library is handed the very slice).
 	exts := []wsutil.SendExtension{&sms}
+	if r.T.Chance(sim.LCfg, 1, 3) {
+		// Attached through the package's function adapter, as a method value
+		// taken before the first message is marked.
+		exts = []wsutil.SendExtension{wsutil.SendExtensionFunc(sms.SetBits)}
+		r.Probe("send_state_through_the_function_adapter")
+	}
+	ext0 := exts[0]
 	ww.SetExtensions(exts...)
 	// A gap with a hundred and more control frames in it (legal; a reader
 	// that reports "nothing read, no error" per control frame meets the limit
@@ -137,7 +144,7 @@ func c13Stack(r *eng.Run) {
 		r.Probe("writer_reset_after_abandoned_fragmented_message")
 	}
 	closeStyle := r.T.Chance(sim.LHist, 1, 3) // compressed messages are ended with Close, as the package's example server does
-	resetOp := r.T.Chance(sim.LHist, 1, 3) // the application announces every message with ResetOp (keeps extensions, as documented)
+	resetOp := r.T.Chance(sim.LHist, 1, 3)    // the application announces every message with ResetOp (keeps extensions, as documented)
 	fw := wsflate.NewWriter(nil, flateCtor(level))
 	type ctrlAt struct {
 		afterFrames int
@@ -159,7 +166,7 @@ func c13Stack(r *eng.Run) {
 	for mi, m := range msgs {
 		if perMsgReset && mi > 0 {
 			ww.Reset(wire, wst, ws.OpBinary)
-			if len(exts) != 1 || exts[0] != wsutil.SendExtension(&sms) {
+			if len(exts) != 1 || !sameExt(exts[0], ext0) {
 				r.FailProp("C17", "caller_slice_modified", "Writer.Reset changed the slice of extensions the application had spread into SetExtensions")
 			}
 			ww.SetExtensions(exts...)
